@@ -145,9 +145,10 @@ Definition splitext_addext (mc : bool) (addexts : list str) (fn : str) : str * s
   if (extpos <? 0) || all_dots fn1 then (fn1, [], opt_str add)
   else (take extpos fn1, drop extpos fn1, opt_str add).
 
-(* klass.filespec_to_file_map (file names only; FileHolder wrapping is not modelled) *)
+(* klass.filespec_to_file_map (file names only; FileHolder wrapping is not modelled);
+   MGHImage: splitext_addext(filespec, ())[1].lower() == '.mgz' *)
 Definition filespec_to_file_map (k : klass) (fs : str) : res dict :=
-  if (fkind k =? 1) && str_eqb (lower (snd (os_splitext fs))) MGZ
+  if (fkind k =? 1) && str_eqb (lower (snd (fst (splitext_addext false [] fs)))) MGZ
   then Ok [(IMAGE, fs)]
   else types_filenames true false (ftypes k) (csuf k) fs.
 
